@@ -1,4 +1,5 @@
 //! tvv — property-based / fuzzing verification harness for tantivy (see /verif/DESIGN.md).
+pub mod crash;
 pub mod engine;
 pub mod hist;
 pub mod known;
